@@ -45,12 +45,72 @@ def _rand_array(rng, name, flavour=None):
     if flavour == "joined":
         ms = [rng.choice(JOINED_MEMBERS) for _ in range(rng.randint(0, 3))]
         return {"t": "array", "flavour": "joined", "name": name, "strip": True, "members": ms}
+    if rng.random() < 0.3:
+        # a TYPED member schema (Integer / Float): members that adapted (their text is the serialised native) next to
+        # members that did not (value None, the raw text kept) -- the usual redisplay of a form with bad input
+        member = rng.choice(["int", "int", "float"])
+        return {"t": "array", "flavour": flavour, "name": name, "strip": False, "member": member,
+                "members": _typed_members(rng, member)}
     strip = rng.random() < 0.5
     ms = []
     for _ in range(rng.randint(0, 3)):
         m = rng.choice(TEXTS)
         ms.append(m.strip() if strip else m)
     return {"t": "array", "flavour": flavour, "name": name, "strip": strip, "members": ms}
+
+
+TYPED_BAD = ["abc", "zz", "", " ", "1.5x", "7x", "N/A", "--", "x y", "é", "1,5", "0x"]
+TYPED_INTS = [7, 12, -3, 0, 100, 5]
+TYPED_FLOATS = [7.0, -0.5, 0.0, 12.25, 3.0]
+
+
+def typed_norm(member, lit):
+    """REFERENCE (not the library): the text a typed member schema keeps for an input text -- surrounding whitespace
+    dropped, read with Python's int() / float(), written with '%i' / '%f' (docs: Integer / Float `format`); an input
+    that cannot be read is kept as it is (the element's value is then None)"""
+    try:
+        n = int(lit.strip()) if member == "int" else float(lit.strip())
+    except ValueError:
+        return lit
+    return ("%i" if member == "int" else "%f") % n
+
+
+def _typed_members(rng, member):
+    ms = []
+    for _ in range(rng.randint(0, 4)):
+        if rng.random() < 0.45:
+            ms.append(rng.choice(TYPED_BAD))
+        else:
+            ms.append(typed_norm(member, str(rng.choice(TYPED_INTS if member == "int" else TYPED_FLOATS))))
+    if ms and rng.random() < 0.6 and all(_typed_adapts(member, m) for m in ms):
+        ms[rng.randrange(len(ms))] = rng.choice(TYPED_BAD)       # mostly at least one member that did not adapt
+    return ms
+
+
+def _typed_adapts(member, lit):
+    try:
+        int(lit.strip()) if member == "int" else float(lit.strip())
+        return True
+    except ValueError:
+        return False
+
+
+def _typed_literals(rng, node):
+    """literal sets for a control group bound to a typed Array: (a) the members' texts, (b) other literals that cannot be
+    read either, (c) '' and whitespace, (d) readable literals equal / unequal to a member BY VALUE but spelled differently
+    ('07' / ' 7' / '+7' / '7.0' vs 7), readable non-members"""
+    member = node["member"]
+    lits = list(dict.fromkeys(node["members"]))
+    lits += rng.sample(TYPED_BAD, 2) + ["", rng.choice([" ", "  ", "\t"])]
+    for m in node["members"]:
+        if _typed_adapts(member, m) and rng.random() < 0.7:
+            n = int(m) if member == "int" else float(m)
+            lits.append(rng.choice(["0%s" % m if not m.startswith("-") else "-0%s" % m[1:], " %s" % m, "%s " % m,
+                                    "+%s" % m if not m.startswith("-") else m, ("%s" % n), ("%g" % n), "%i" % int(n)]))
+    lits += [rng.choice(["9", "09", "9.0", "9.000000", "-1"])]
+    lits = list(dict.fromkeys(lits))
+    rng.shuffle(lits)
+    return lits[:8]
 
 
 def shown_of(node):
@@ -89,8 +149,11 @@ def _revalue(rng, t, form_mode=False):
         elif n["t"] == "bool":
             n["u"] = rng.choice([n["true"], ""] if form_mode else [n["true"], "", "zzz"])
         elif n["t"] == "array":
-            n["members"] = _rand_array(rng, None, n.get("flavour", "array"))["members"] if n.get("flavour") == "joined" else [
-                (m.strip() if n["strip"] else m) for m in [rng.choice(TEXTS) for _ in range(rng.randint(0, 3))]]
+            if n.get("member", "str") != "str":
+                n["members"] = _typed_members(rng, n["member"])
+            else:
+                n["members"] = _rand_array(rng, None, n.get("flavour", "array"))["members"] if n.get("flavour") == "joined" else [
+                    (m.strip() if n["strip"] else m) for m in [rng.choice(TEXTS) for _ in range(rng.randint(0, 3))]]
         elif n["t"] == "dict":
             for f in n["fields"]:
                 go(f)
@@ -137,10 +200,9 @@ def schema_of(t, template=None):
         flavour = t.get("flavour", "array")
         if flavour == "joined":
             cls = fl.JoinedString
-        elif flavour == "multi":
-            cls = fl.MultiValue.of(fl.String.using(strip=t["strip"]))
         else:
-            cls = fl.Array.of(fl.String.using(strip=t["strip"]))
+            member = {"int": fl.Integer, "float": fl.Float}.get(t.get("member", "str")) or fl.String.using(strip=t["strip"])
+            cls = (fl.MultiValue if flavour == "multi" else fl.Array).of(member)
     elif k == "dict":
         cls = fl.Dict.of(*[schema_of(f) for f in t["fields"]])
     else:
@@ -597,6 +659,8 @@ def _control_for(rng, node, form_mode=False):
     if k == "array":
         if form_mode:
             lits = [(m if m is not None else "") for m in node["members"]]     # one checkbox per member occurrence
+        elif node.get("member", "str") != "str":
+            lits = _typed_literals(rng, node)
         else:
             lits = list(dict.fromkeys((m if m is not None else "") for m in node["members"]))
             lits.append(rng.choice(TEXTS))
@@ -821,6 +885,12 @@ def _fix_arr_shown(case):
                 break
         if ok and node["t"] == "array":
             r["arr_shown"] = shown_of(node)
+            lit = dict((k, v) for k, v in r["kwargs"]).get("value")
+            if node.get("member", "str") != "str" and lit is not None and lit.get("t") in ("s", "m"):
+                # typed member schema: `literal in bind` asks for the literal AS THE MEMBER SCHEMA KEEPS IT.  That reading
+                # (int()/float() + '%i'/'%f') is not modelled in Lean: the case hands it to the runner, computed by the
+                # reference typed_norm (not by the library)
+                r["norm"] = typed_norm(node["member"], lit["v"])
     return case
 
 
@@ -857,7 +927,10 @@ def _e2e_schema(t, kinds):
     if k == "bool":
         return {"t": "leaf", "name": t["name"], "k": kind(("bool", t["true"]), fl.Boolean.using(true=t["true"]))}
     if k == "array":
-        member = {"t": "leaf", "name": None, "k": kind(("str", bool(t["strip"])), fl.String.using(strip=t["strip"]))}
+        if t.get("member", "str") != "str":
+            member = {"t": "leaf", "name": None, "k": kind((t["member"],), {"int": fl.Integer, "float": fl.Float}[t["member"]])}
+        else:
+            member = {"t": "leaf", "name": None, "k": kind(("str", bool(t["strip"])), fl.String.using(strip=t["strip"]))}
         return {"t": "array", "name": t["name"], "prune": bool(fl.Array.prune_empty), "member": member}
     if k == "dict":
         return {"t": "dict", "name": t["name"], "mode": "dense", "fields": [_e2e_schema(f, kinds) for f in t["fields"]]}
@@ -1107,6 +1180,19 @@ class C12(Property):
                   "TablesOK (discharged for Tables.current); (4) boolsCanonical (every Boolean's text is its true value or '') "
                   "only for the statement that the unposted pairs of flatten() have value ''.  The harness re-states (1)+(2)+(4) "
                   "on the case (form_ok) and tags every form-mode case formOk / formOk=false:<reason>.  "
+                  "TYPED ARRAYS (oracle + correspondence): Array / MultiValue of Integer / Float whose members adapted (text = "
+                  "serialised native) or did NOT (value None, raw text kept), bound as a whole to checkbox / radio groups and "
+                  "<select multiple> options.  Oracle, by TEXT (statement: 'their literal value matches ... one member of a "
+                  "bound Array'; docs/source/markup.rst: 'value= will be compared against the .u of each of the container's "
+                  "children'): on when the literal is the text of a member; off when neither the literal nor the text the member "
+                  "schema keeps for it is a member's text (unreadable non-members such as 'xyz', '' and whitespace, readable "
+                  "non-members); a literal that only MEANS a member ('07' for the text '7') is not asserted (assumptions).  "
+                  "Lean: `literal in bind` for a typed member schema is NOT modelled -- the case hands the runner the literal as "
+                  "the member schema keeps it (`norm`, from the harness reference typed_norm = Python int()/float() + "
+                  "'%i'/'%f', not from the library) and Run/C12.lean `typedBind` presents the read-only transform model with a "
+                  "member list that answers `contains literal` accordingly; so the HARNESS decides the reading, the model the "
+                  "rest (checked / selected, name, posted pair).  The whole-form theorems carry member texts only: in form mode "
+                  "the literals are the members' own texts (norm = literal), and they apply unchanged.  "
                   "AFTER A REJECTED CALL (failure / recovery paths): a case may make generator calls, each caught, on the "
                   "same generator before the first rendering.  THEOREMS (Proofs/C12Rejected.lean, on the C19 model of "
                   "Context / Generator that the runner uses for those calls): failed_settings_call_keeps_generator -- ANY begin / "
@@ -1143,6 +1229,14 @@ class C12(Property):
         "<textarea>; option text stripped and collapsed on ASCII whitespace).  NOT modelled: CR/CRLF -> LF normalisation of the "
         "input stream, newline stripping in text inputs, CRLF normalisation on submission, NUL -> U+FFFD: element texts "
         "containing CR/LF/NUL in text-like inputs are 'posted unchanged' relative to that",
+        "typed Arrays: whether a literal that is not the text of any member but READS as the same native as one ('07', ' 7', "
+        "'+7', '7.0' against the Integer / Float member whose text is '7' / '7.000000') counts as 'matching' is not "
+        "determined by the statement: the docs say the literal is compared with each child's .u (-> no match), the code "
+        "wraps the literal in a member element and compares value and text (-> match; the browser then posts (name, '07'), "
+        "which is not one of the element's flat pairs but adapts to the same element).  Neither reading is asserted by the "
+        "oracle (tag typed-lit=*:respelled-member(open)); the correspondence pins what the code does.  The same latitude was "
+        "already given to Array.of(String(strip=True)) (' p' matches the member 'p').  Member kinds Integer and Float only "
+        "(no Decimal / Date); no 'nan' / 'inf' members (a Float member 'nan' is not equal to itself by value)",
         "pre-history: calls come BEFORE the first rendering only (not between renderings); update() takes one positional "
         "mapping and keywords, modelled as the concatenated pair list (`source = list(to_pairs(m)); source.extend(kw.items())`); "
         "a bind that is not an element is a str and the call forces auto_name='on', so that the first transform raises "
@@ -1156,7 +1250,12 @@ class C12(Property):
             "button, checkbox (with/without literal, Boolean/Array binds), radio groups, select/option (value= or contents=), "
             "password/file/image/reset/button types, labels paired with a control; decoy literals differing from the text only in "
             "case / Unicode normal form / padding; form mode (35%, mostly >= 3 leaves, 0 / 1 / 2+ submitters) renders one "
-            "control (group) per leaf and feeds the posted pairs to from_flat.  PRE-HISTORY (40% of the cases, 1-5 calls on the same "
+            "control (group) per leaf and feeds the posted pairs to from_flat.  TYPED ARRAYS (30% of the plain / MultiValue arrays): member schema "
+            "Integer or Float, 0-4 members, 45% of them unreadable texts ('abc', '', ' ', '1.5x', 'N/A' ...; mostly at least "
+            "one), the others canonical ('7', '-0.500000'); outside form mode up to 8 literals per group: the members' texts, two "
+            "other unreadable texts, '', whitespace, respellings of readable members ('07', ' 7', '+7', '7.0', '7'), a readable "
+            "non-member ('9', '09', '9.0'); tags typed-array=<kind>:<flavour>, typed-members=<all-adapted|mixed|all-unadapted|none>, "
+            "typed-lit=<control>:<class>:<on|off>.  PRE-HISTORY (40% of the cases, 1-5 calls on the same "
             "generator before the first rendering, each caught): 50% a settings call with an unknown option among 0-3 valid ones "
             "(update x3 / begin / set / []=; unknown key first / middle / last / only; update with a positional mapping and "
             "keywords, the unknown key in either part; the valid pairs mostly switch auto_name / auto_value off -- what would "
@@ -1322,6 +1421,23 @@ class C12(Property):
         cases.append(dict(one("x", [rd([0], "input", [["type", S("radio")], ["value", S("x")]], "check", lit="x")]),
                           pre=[{"op": "update", "pos": [["auto_domid", B(True)]],
                                 "settings": [["auto_for", B(True)], ["auto_value", S("off")], ["", B(True)], ["auto_name", B(True)]]}]))
+        # seeded mutation C12-element-eq-drops-text (Element.__eq__ without its text conjunct): an Array of Integer reloaded
+        # from a submission with a member that did not adapt ('abc': value None, text kept) next to one that did ('7'); one
+        # checkbox / radio / option per literal: members' texts, other unreadable literals, '' and whitespace, readable
+        # non-members, and '07' (MEANS the member 7, is not its text: left open, see assumptions)
+        nums = {"t": "array", "flavour": "array", "member": "int", "name": "nums", "strip": False, "members": ["abc", "7"]}
+        lits = ["7", "abc", "xyz", "", " ", "9", "07", "7x"]
+        for ty in ("checkbox", "radio"):
+            cases.append(one("x", [chk([1], ty, l) for l in lits] + [chk([1], ty, "zz", stale)], extra_fields=[nums]))
+        cases.append(one("x", [rd([1], "select", [["multiple", S("multiple")]], "select")] +
+                         [opt([1], 0, l, ["contents", S("x")]) for l in lits], extra_fields=[nums]))
+        allbad = {"t": "array", "flavour": "multi", "member": "float", "name": "amounts", "strip": False, "members": ["one", "", "two"]}
+        cases.append(one("x", [chk([1], "checkbox", l) for l in ["one", "three", "two", "", "0", "0.000000", "nan x"]],
+                         extra_fields=[allbad]))
+        # the same Array as a whole form: one checkbox per member, the unadapted text is posted back as it is
+        cases.append({"markup": "html", "settings": [], "form_mode": True,
+                      "tree": {"t": "dict", "name": "f", "fields": [nums]},
+                      "renders": [dict(chk([0], "checkbox", l), form=True) for l in ["abc", "7"]]})
         # set() rejecting an option value after a valid pair; unbalanced end(); accepted begin(auto_name off) ... end()
         cases.append(dict(one("x", [rd([0], "button", [], "value")]),
                           pre=[{"op": "set", "settings": [["auto_value", B(False)], ["auto_name", I(7)]]}, {"op": "end"},
@@ -1438,6 +1554,19 @@ class C12(Property):
                 if isinstance(el, flatland.JoinedString):
                     # an Array subclass, but ONE flattenable leaf: its text is the joined string
                     want_on = (lit == el.u)
+                elif isinstance(el, flatland.Array) and self._bind_node(case, r).get("member", "str") != "str":
+                    # typed members (Integer / Float).  The statement is about TEXT ("their literal value matches ... one
+                    # member of a bound Array"; docs: "value= will be compared against the .u of each of the container's
+                    # children"): checked / selected when the literal IS the text of a member; NOT when neither the
+                    # literal nor the text the member schema keeps for it (typed_norm: '07' -> '7') is a member's text.
+                    # A literal that only MEANS a member ('07', ' 7', '+7' for the text '7') is left open: see assumptions
+                    texts = [m.u for m in el]
+                    if lit in texts:
+                        want_on = True
+                    elif typed_norm(self._bind_node(case, r)["member"], lit) in texts:
+                        continue
+                    else:
+                        want_on = False
                 elif isinstance(el, flatland.Array):
                     strip = el.member_schema.strip
                     want_on = any(m.value == (lit.strip() if strip else lit) for m in el)
@@ -1814,6 +1943,26 @@ class C12(Property):
         for r, o in zip(case["renders"], obs["renders"]):
             kw = dict((k, v) for k, v in r["kwargs"])
             ty = kw.get("type", {}).get("v", "") if r["tag"] == "input" else ""
+            node = self._bind_node(case, r) if r.get("sel") is not None else {}
+            if node.get("t") == "array" and node.get("member", "str") != "str":
+                ms = node["members"]
+                bad = [m for m in ms if not _typed_adapts(node["member"], m)]
+                t.append("typed-array=%s:%s" % (node["member"], node.get("flavour", "array")))
+                t.append("typed-members=%s" % ("none" if not ms else "all-adapted" if not bad else "all-unadapted" if len(bad) == len(ms) else "mixed"))
+                lit = kw.get("value", {}).get("v") if r["role"] in ("check", "option") else None
+                if isinstance(lit, str):
+                    ctl = "option" if r["tag"] == "option" else str(ty).lower()
+                    if lit in ms:
+                        cls = "member-text"
+                    elif lit.strip() == "":
+                        cls = "empty-or-whitespace"
+                    elif not _typed_adapts(node["member"], lit):
+                        cls = "unreadable-non-member"
+                    elif typed_norm(node["member"], lit) in ms:
+                        cls = "respelled-member(open)"
+                    else:
+                        cls = "readable-non-member" + ("-respelled" if typed_norm(node["member"], lit) != lit else "")
+                    t.append("typed-lit=%s:%s:%s" % (ctl, cls, "on" if o.get("posted") else "off"))
             t.append("ctl=%s%s" % (r["tag"], ":" + str(ty).lower() if r["tag"] == "input" else ""))
             t.append("role=%s" % r["role"])
             t.append("posted" if o.get("posted") else "not-posted")
